@@ -139,3 +139,22 @@ def enumerate_all(max_depth):
                 if ok:
                     out.append((ws, x, frag))
     return out
+
+
+def recursive_programs():
+    """(name, source): handlers of OUTER activations of a recursive function catch what inner activations throw — a
+    handler belongs to one activation, not to the function: direct recursion (throw in the base case outside the try of
+    that activation, re-throw on the way up), mutual recursion, a recursive function literal-free helper chain, exits out of
+    recursive activations inside loops."""
+    out = []
+    out.append(("rec-direct", 'fn rec(n: int) -> int { if n == 0 { throw("base"); } let k = n * 10; let r = try { rec(n - 1) } catch e { println("caught at", n, k, e.message); if n < 3 { throw("again " + e.message); } n }; println("leave", n, k, r); r }\n'
+                'fn main() { let k = 1; try { println(rec(4)); } catch e { println("main caught", e.message); } println("after", k); try { throw("final"); } catch e { println("main caught", e.message); } println(rec2(3)); }\n'
+                'fn rec2(n: int) -> int { if n == 0 { return 0; } try { if n == 1 { throw("one"); } rec2(n - 1) + 1 } catch e { println("rec2 caught", n, e.message); 100 } }\n'))
+    out.append(("rec-mutual", 'fn outer(n: int) -> int { let k = n; try { middle(n) } catch e { println("outer caught", n, k, e.message); 1000 + n } }\n'
+                'fn middle(n: int) -> int { if n == 0 { throw("bottom"); } let r = outer(n - 1); println("middle", n, r); if n == 2 { throw("from middle"); } r + 100 }\n'
+                'fn main() { println(outer(3)); try { throw("final"); } catch e { println("main caught", e.message); } println(outer(1)); }\n'))
+    out.append(("rec-loop", 'fn walk(n: int) -> int { let s = 0; for i in 0..3 { try { if n > 0 { s += walk(n - 1); } if i == n { throw("t" ); } s += 1; } catch e { s += 10; if i == 2 { break; } continue; } } println("walk", n, s); s }\n'
+                'fn main() { println(walk(2)); println(walk(1)); try { throw("final"); } catch e { println("main caught", e.message); } }\n'))
+    out.append(("rec-fatal-base", 'fn down(n: int) -> int { if n == 0 { let l = [1]; return l[5]; } try { down(n - 1) } catch e { println("never", n); 0 } }\n'
+                'fn main() { println("start"); println(down(3)); println("not reached"); }\n'))
+    return out
